@@ -461,6 +461,8 @@ def main(tier):
     rep.attempt(check_resume, rep, mod)
     rep.attempt(check_resume_offset, rep, mod)
     rep.attempt(check_null_skip, rep, mod)
+    import c17
+    rep.attempt(c17.check_mask_range, rep, 'default')      # the CMF byte written by _zlib_header_in_buffer: CINFO for every hist_bits
     import probepure
     rep.attempt(probepure.check_avail_unsigned, rep, mod, field_offsets('struct isal_zstream', ['avail_in', 'avail_out']), field_offsets('struct inflate_state', ['avail_in', 'avail_out']))
     rep.attempt(check_magic, rep, mod)
